@@ -21,7 +21,7 @@ type GenOpts struct {
 	AddRemove bool     // C17: v1 AddInput / RemoveInput ops
 	NoZero    bool     // exclude configurations in which a configured priority has a zero strategic share (v1 finding F4)
 	Sparse    bool     // C06: sparse arrivals, minimal H, single active priority
-	LongHold  bool     // v2: the consumer may sit on the last items for seconds to an hour before releasing them
+	LongHold  bool     // the consumer may sit on the last items for seconds to an hour before releasing them
 	Many      bool     // occasionally a script with more than 64 inputs (Fair, simple ops)
 	Thorough  bool
 }
@@ -198,7 +198,7 @@ func Gen(o GenOpts) *rapid.Generator[Script] {
 			s.FbCap = pick(t, "fbcap", 0, 0, 1, 2, 4, 16, 100)
 		}
 
-		if o.LongHold && s.Ver == 2 {
+		if o.LongHold {
 			s.EpiHold = pick(t, "epihold", int64(0), 0, 0, 1000000, 5000000001, 61000000000, 3600000000000)
 		}
 		// ops
